@@ -47,6 +47,73 @@ def sm_cfg(c, out):
     return "\n".join(lines)
 
 
+COND_FIELDS = ["init", "kw", "op", "opctx", "ex", "len", "nesting", "cannest", "paren", "padded", "ronly", "isenc", "enc",
+               "err", "id", "cat", "valid", "str", "bits"]
+
+COND_DEFAULT = dict(machine="cond", KwArgs=["k", "", "stringer", "nil", "int"],
+                    OpArgs=["Eq", "Ge", "op0", "user", "emptytext", "emptyctx", "nil"],
+                    ExArgs=["nil", "s:v", "s:", "i:5", "S", "A", "C", "str"],
+                    CFams=["set", "cond", "opts", "life"], COptFlags=["paren", "nspad", "ronly", "nnest"],
+                    invariants=["CTypeOK", "CStepProps"], depth=2, walks=300, wlen=40, fields=COND_FIELDS)
+
+
+def cond_cfg(c, out):
+    return "\n".join(["SPECIFICATION CSpec", "CONSTANTS",
+                      "  KwArgs = " + tla_str_set(c["KwArgs"]), "  OpArgs = " + tla_str_set(c["OpArgs"]),
+                      "  ExArgs = " + tla_str_set(c["ExArgs"]), "  CFams = " + tla_str_set(c["CFams"]),
+                      "  COptFlags = " + tla_str_set(c["COptFlags"]), '  OUT = "%s"' % out,
+                      "INVARIANTS " + " ".join(c["invariants"] + (["CEmit"] if out else [])),
+                      "CHECK_DEADLOCK FALSE", ""])
+
+
+def cond_trace_stage(work, v, findings, prop, harness, name, t, fields, acc):
+    """code -> spec for Conditions (CondTrace.tla)."""
+    tr = work.path("ctrace_%s.ndjson" % name)
+    rc, out, _ = lib.run([harness, "condtracegen", "-out", tr, "-seed", str(lib.seed() * 104729 + t.get("salt", 0)),
+                          "-traces", str(t["traces"]), "-len", str(t["len"])], timeout=600)
+    if rc != 0:
+        raise Infra("condtracegen failed: " + out[-2000:])
+    g = json.loads(out.strip().splitlines()[-1])
+    result = work.path("cresult_%s.json" % name)
+    cfg = "\n".join(["SPECIFICATION CTSpec", "CONSTANTS", '  TRACEFILE = "%s"' % tr, '  RESULT = "%s"' % result,
+                     "  FIELDS = " + tla_str_set(fields), "INVARIANT Done", "CHECK_DEADLOCK FALSE", ""])
+    res = lib.tlc(work, "ctv_" + name, "CondTrace", cfg, workers=1, timeout=1200)
+    if not os.path.exists(result):
+        raise Infra("CondTrace wrote no result")
+    r = json.load(open(result))
+    nlines = g["events"] + g["traces"]
+    if r["consumed"] != nlines:
+        raise Infra("CondTrace consumed %s of %s lines" % (r["consumed"], nlines))
+    acc["traces"] += g["traces"]; acc["trace_events"] += g["events"]; acc["evaluations"] += g["events"]; acc["states"] += res["distinct"]
+    acc["tv"].append(dict(name="cond-" + name, histories=g["traces"], events=g["events"], rejected_lines=len(r["bad"]), tlc_wall_s=round(res["wall"], 1)))
+    if r["bad"]:
+        lines = lib.read_ndjson(tr)
+        seen = {}
+        for b in r["bad"]:
+            ln = b["line"]; start = ln - 1
+            while lines[start - 1]["ev"] != "reset":
+                start -= 1
+            reset = lines[start - 1]
+            steps = [dict(c=e["c"], on="st", exp_ret=e["ret"]) for e in lines[start:ln]]
+            last = lines[ln - 1]
+            steps[-1]["exp_ret"] = b["expret"]
+            eo = dict(last["obs"])
+            if isinstance(b.get("exp"), dict):
+                eo.update(b["exp"])
+            steps[-1]["exp_obs"] = eo
+            kind = "panic" if last["ret"][:1] == ["PANIC"] else ("ret" if not b["retok"] else "obs")
+            rec = dict(property=prop, machine="cond", kind=kind, init=reset["st"], steps=steps,
+                       detail=["trace line %d rejected by CondTrace" % ln, "observed ret %s, spec ret %s" % (last["ret"], b["expret"]),
+                               "observables differing: %s" % (sorted(b["exp"].keys()) if isinstance(b.get("exp"), dict) else [])],
+                       **{"class": "%s/Condition.%s/%s" % (prop, b["op"], kind)})
+            k = rec["class"]; seen[k] = seen.get(k, 0) + 1
+            if seen[k] <= 2:
+                triage(v, findings, prop, harness, rec, fields)
+    else:
+        lines = lib.read_ndjson(tr, limit=6)
+        acc["samples"].append(dict(kind="validated-condition-trace-prefix", lines=[dict(call=e.get("c"), ret=e.get("ret")) for e in lines[1:5]]))
+
+
 def triage(v, findings, prop, harness, rec, fields=None):
     """One mismatch record -> known finding or (re-executed, confirmed) violation."""
     sig = rec.get("class", "?")
@@ -67,12 +134,16 @@ def sm_table_stage(work, v, findings, prop, harness, name, c, fields, acc):
     """spec -> code: model-check one bounded instance, emit its transition
     table, replay it (single transitions, all paths to a depth, random walks)."""
     d_out = work.path("table_%s.ndjson" % name)
-    res = lib.tlc(work, "mc_" + name, "Stackage", sm_cfg(c, d_out), workers=1, timeout=c.get("timeout", 900))
+    machine = c.get("machine", "stack")
+    if machine == "cond":
+        res = lib.tlc(work, "mc_" + name, "CondMC", cond_cfg(c, d_out), workers=1, timeout=c.get("timeout", 900))
+    else:
+        res = lib.tlc(work, "mc_" + name, "Stackage", sm_cfg(c, d_out), workers=1, timeout=c.get("timeout", 900))
     summ = work.path("sum_%s.json" % name)
     mm = work.path("mm_%s.ndjson" % name)
     cmd = [harness, "table", "-table", d_out, "-prop", prop, "-depth", str(c["depth"]),
            "-walks", str(c["walks"]), "-wlen", str(c["wlen"]), "-seed", str(lib.seed()),
-           "-mismatches", mm, "-summary", summ, "-fields", ",".join(fields)]
+           "-mismatches", mm, "-summary", summ, "-fields", ",".join(c.get("fields", fields)), "-machine", machine]
     rc, out, wall = lib.run(cmd, timeout=c.get("replay_timeout", 1800))
     if rc != 0:
         raise Infra("table replay failed: " + out[-2000:])
@@ -85,7 +156,7 @@ def sm_table_stage(work, v, findings, prop, harness, name, c, fields, acc):
     acc["traces"] += s["paths_replayed"] + s["walks"]
     acc["evaluations"] += s["steps_executed"]
     acc["transitions_replayed"] += s["transitions_replayed"]
-    acc["instances"].append(dict(name=name, constants={k: c[k] for k in
+    acc["instances"].append(dict(name=name, machine=machine, constants={k: c[k] for k in c if k in
                             ("Vals", "MaxLen", "Caps", "Kinds", "InitOpts", "InitMtx", "Fams", "IdxMode", "PushLens", "DstCaps", "OptFlags")},
                             tlc_distinct_states=res["distinct"], tlc_generated=res["generated"],
                             table_transitions=s["transitions"], paths_depth=c["depth"],
@@ -100,7 +171,7 @@ def sm_table_stage(work, v, findings, prop, harness, name, c, fields, acc):
         k = rec.get("class")
         seen[k] = seen.get(k, 0) + 1
         if seen[k] <= 2:
-            triage(v, findings, prop, harness, rec, fields)
+            triage(v, findings, prop, harness, rec, c.get("fields", fields))
     return s
 
 
@@ -235,17 +306,19 @@ def frame_stage(work, v, findings, prop, harness, mode, acc, seqs=100, limit=400
                                        args=e["args"], snapshot_unchanged=e["pre"] == e["post"], panic=e["panic"]))
 
 
-def sm_check(work, v, prop, tier, tables, traces, fields, design_props, note, frames=()):
+def sm_check(work, v, prop, tier, tables, traces, fields, design_props, note, frames=(), ctraces=()):
     findings = Findings()
     harness = lib.build_harness(work)
     acc = dict(states=0, transitions=0, generated=0, traces=0, evaluations=0, trace_events=0,
                transitions_replayed=0, instances=[], tv=[], samples=[])
     for name, c in tables:
-        cc = dict(SM_DEFAULT)
+        cc = dict(COND_DEFAULT if c.get("machine") == "cond" else SM_DEFAULT)
         cc.update(c)
         sm_table_stage(work, v, findings, prop, harness, name, cc, fields, acc)
     for name, t in traces:
         sm_trace_stage(work, v, findings, prop, harness, name, t, fields, acc)
+    for name, t in ctraces:
+        cond_trace_stage(work, v, findings, prop, harness, name, t, t.get("fields", COND_FIELDS), acc)
     for fr in frames:
         frame_stage(work, v, findings, prop, harness, acc=acc, **fr)
     v.cov = dict(
@@ -367,10 +440,13 @@ def c09(work, v, tier):
               ("ro-cfg", dict(InitOpts=[["ronly"]], MaxLen=0, Fams=["opts", "life"], OptFlags=ALLFL, depth=2 if q else 3, walks=200 if q else 2000, wlen=30)),
               ("ro-set", dict(Kinds=["AND", "LIST"], InitOpts=[["ronly"]], MaxLen=1, Vals=["a"], PushLens=[1],
                               Fams=["settings", "policy", "opts"], OptFlags=["ronly"], depth=2, walks=200 if q else 2000, wlen=30))]
+    tables.append(("cond-ro", dict(machine="cond", KwArgs=["k", "nil"], OpArgs=["Eq", "user", "nil"], ExArgs=["nil", "s:v", "S"],
+                                   CFams=["set", "opts", "life", "settings", "closures"], COptFlags=["ronly", "paren"], depth=2, walks=300 if q else 3000)))
     traces = [("rand", dict(traces=150 if q else 1500, len=80, fams=["list", "opts", "policy", "life", "settings", "marshal"], mode="all"))]
     return sm_check(work, v, "C09", tier, tables, traces, ALL_FIELDS,
                     ["StepProps: ReadOnlyFrame over the whole action alphabet (only SetReadOnly / SetErr change a read-only state; Free returns an error)"],
-                    RO_NOTE, frames=[dict(mode="ronly", seqs=60 if q else 600)])
+                    RO_NOTE + "; the Condition's read-only frame (CROFrame) in a CondMC instance and CondTrace histories",
+                    frames=[dict(mode="ronly", seqs=60 if q else 600)], ctraces=[("rand", dict(traces=200 if q else 2000, len=50))])
 
 
 @check("C17")
@@ -382,6 +458,8 @@ def c17(work, v, tier):
               ("life-cfg", dict(MaxLen=0, Fams=["opts", "life"], OptFlags=ALLFL, depth=2, walks=100 if q else 1000, wlen=30)),
               ("life-set", dict(Kinds=["AND", "LIST"], MaxLen=1, Vals=["a"], PushLens=[1], Fams=["settings", "policy", "life"],
                                 depth=2, walks=100 if q else 1000, wlen=30))]
+    tables.append(("cond-life", dict(machine="cond", KwArgs=["k", "nil"], OpArgs=["Eq", "nil"], ExArgs=["nil", "s:v", "S"],
+                                     CFams=["set", "cond", "opts", "life", "settings"], COptFlags=["ronly"], depth=2, walks=300 if q else 3000)))
     traces = [("rand", dict(traces=200 if q else 2000, len=60, fams=["list", "opts", "life", "settings", "marshal", "query"], mode="all"))]
     return sm_check(work, v, "C17", tier, tables, traces, ALL_FIELDS,
                     ["StepProps: Inert (a dead handle stays dead, every call returns its zero result, only Marshal initialises)",
@@ -403,13 +481,17 @@ def c13(work, v, tier):
     tables = [("nest", dict(Caps=[0, 2], Kinds=["AND", "OR", "NOT", "LIST", "BASIC"] if not q else ["AND", "LIST", "BASIC"], Vals=vals,
                             MaxLen=2 if q else 3, InitOpts=[[], ["nnest"]], Fams=["grow", "opts"], OptFlags=["nnest"],
                             PushLens=[1, 2], depth=2, walks=300 if q else 3000, wlen=40))]
+    tables.append(("cond-nn", dict(machine="cond", KwArgs=["k"], OpArgs=["Eq"], ExArgs=["nil", "s:v", "S", "A", "P", "C"],
+                                   CFams=["set", "opts", "life"], COptFlags=["nnest", "ronly"], depth=3, walks=300 if q else 3000)))
     traces = [("rand", dict(traces=200 if q else 2000, len=60, fams=["list", "opts"], nest=True, nvals=6))]
     return sm_check(work, v, "C13", tier, tables, traces, C13_FIELDS,
                     ["StepProps: NoNestPush (with no-nesting on, Push keeps exactly the non-Stack values, in order)",
                      "OptIndependence / switching the option never changes the content", "Obs: CanNest <=> no-nesting unset, IsNesting <=> some element is Stack-valued"],
                     "no-nesting on Stacks: push batches mixing native Stacks, aliases, pointers to aliases, Conditions, primitives and nil, "
                     "interleaved with set / clear / toggle of the option, on every kind; content, CanNest, IsNesting and the raw option bits "
-                    "compared after every step (Condition side: see C06)")
+                    "compared after every step; the Condition side (SetExpression refuses a Stack / alias / pointer while no-nesting is set, "
+                    "switching never touches the stored expression, CanNest / IsNesting) in a CondMC instance and in CondTrace histories",
+                    ctraces=[("rand", dict(traces=200 if q else 2000, len=50, fields=["init", "ex", "nesting", "cannest", "bits", "len"]))])
 
 
 C14_FIELDS = ["init", "len", "elems", "err", "integ"]
@@ -457,6 +539,8 @@ def c18(work, v, tier):
                              depth=3 if q else 4, walks=300 if q else 3000, wlen=40)),
               ("settings", dict(Kinds=["AND", "LIST", "BASIC"], MaxLen=0, Fams=["settings", "opts"], OptFlags=["fold", "ronly"],
                                 depth=2, walks=300 if q else 3000, wlen=40))]
+    tables.append(("cond-flags", dict(machine="cond", KwArgs=["k"], OpArgs=["Eq"], ExArgs=["s:v"], CFams=["opts", "settings", "set"],
+                                      depth=3 if q else 4, walks=300 if q else 3000)))
     traces = [("rand", dict(traces=200 if q else 2000, len=80, fams=["opts", "settings", "list"], nvals=4))]
     return sm_check(work, v, "C18", tier, tables, traces, C18_FIELDS,
                     ["StepProps: OptIndependence (a switch changes exactly its own flag, nothing else; on / off / toggle semantics)",
@@ -464,7 +548,32 @@ def c18(work, v, tier):
                     "options: exhaustive sequences of {set, clear, toggle} x 8 options to depth 3 (quick) / 4 (thorough) with the raw option bits "
                     "read through the verif hook and the getters compared; ID, category, delimiter (LIST only), symbol (non-LIST only) and "
                     "encapsulation pairs (duplicate characters refused) in a second instance; random longer mixed sequences validated as traces. "
-                    "Log levels: see the loglevel stage")
+                    "The Condition's four switches (parenthetical, no-padding, no-nesting, read-only), ID, category and encapsulation in a CondMC instance "
+                    "to the same depth and in CondTrace histories",
+                    ctraces=[("rand", dict(traces=200 if q else 2000, len=50))])
+
+
+@check("C06")
+def c06(work, v, tier):
+    q = tier == "quick"
+    full_ops = ["Eq", "Ne", "Lt", "Gt", "Le", "Ge", "op0", "op9", "user", "emptytext", "emptyctx", "nil"]
+    tables = [("cond", dict(machine="cond", depth=2, walks=400 if q else 4000, wlen=40)),
+              ("cond-closures", dict(machine="cond", KwArgs=["k", ""], OpArgs=["Eq", "nil"], ExArgs=["nil", "s:v", "S"],
+                                     CFams=["set", "closures", "life"], COptFlags=[], depth=2, walks=200 if q else 2000)),
+              ("cond-enc", dict(machine="cond", KwArgs=["k"], OpArgs=["Ge"], ExArgs=["s:v", "i:5", "C"], CFams=["set", "settings", "opts"],
+                                COptFlags=["paren", "nspad"], depth=2, walks=200 if q else 2000))]
+    if not q:
+        tables.append(("cond-full", dict(machine="cond", OpArgs=full_ops, KwArgs=["k", "kw2", "", "stringer", "nil", "int"],
+                                         ExArgs=["nil", "s:v", "s:w x", "s:", "i:5", "b:t", "S", "A", "P", "C", "str"], depth=3, walks=4000, wlen=60)))
+    return sm_check(work, v, "C06", tier, tables, [], COND_FIELDS,
+                    ["CStepProps: Holds (accepted arguments are stored, rejected ones leave kw/op/ex unchanged)",
+                     "ValidDef (Valid nil iff keyword non-empty, operator present and in range, expression non-nil)",
+                     "ValidGatesString (String empty iff Valid fails)", "CROFrame", "CNoNest", "COptInd", "CInert"],
+                    "Condition state machine (CondCore.tla): all setter histories over accepted and rejected arguments (nil, empty, wrong type, "
+                    "stringers, built-in / out-of-range / user / empty-text / empty-context / nil operators, Stack / alias / Condition expressions) "
+                    "x {no-nesting, no-padding, parenthetical, encapsulation} starting from Cond(...) and Init(); Keyword / Operator / Expression, "
+                    "Valid() and the exact String() text compared after every step; random histories validated by CondTrace.tla",
+                    ctraces=[("rand", dict(traces=300 if q else 3000, len=50))])
 
 
 def replay(prop, path, work):
